@@ -19,6 +19,7 @@ type Type struct {
 	Name   string  `json:"name,omitempty"`   // struct, self
 	Pkg    string  `json:"pkg,omitempty"`    // struct: local | ext
 	Fields []Field `json:"fields,omitempty"` // struct
+	Meth   string  `json:"meth,omitempty"`   // struct: declares Equal/Compare/Hash methods; receiver (v|p) + argument (v|p|i)
 }
 
 type Field struct {
@@ -153,9 +154,61 @@ func (t *Type) String() string {
 		if t.Pkg == "ext" {
 			p = "imported struct"
 		}
+		if t.Meth != "" {
+			p += "[own Equal/Compare/Hash methods: receiver " + methWord(t.Meth[0]) + ", argument " + methWord(t.Meth[1]) + "]"
+		}
 		return p + "{" + strings.Join(fs, "; ") + "}"
 	}
 	return "?" + t.K
+}
+
+func methWord(c byte) string {
+	switch c {
+	case 'v':
+		return "by value"
+	case 'p':
+		return "by pointer"
+	}
+	return "interface{}"
+}
+
+// MStruct mirrors Types.tla MStruct: the fixture struct whose own Equal /
+// Compare / Hash methods look at the first field K only.
+func MStruct(mk string) *Type {
+	t := Struct("M"+mk, "local", F("K", Basic("int")), F("V", Basic("int")))
+	t.Meth = mk
+	return t
+}
+
+// methodDecls renders the fixture methods of a method-bearing struct: they
+// consider the first field only, are nil-safe, and accept the argument forms
+// the plugins pass (value, pointer, or either inside interface{}).
+func methodDecls(name, first, mk string) string {
+	recv, arg := "a "+name, "b "+name
+	pre := ""
+	if mk[0] == 'p' {
+		recv = "a *" + name
+	}
+	switch mk[1] {
+	case 'p':
+		arg = "b *" + name
+	case 'i':
+		arg = "bi interface{}"
+		pre = "\tvar b *" + name + "\n\tswitch x := bi.(type) {\n\tcase *" + name + ":\n\t\tb = x\n\tcase " + name + ":\n\t\tb = &x\n\t}\n"
+	}
+	nilEq, nilCmp := "", ""
+	if mk[0] == 'p' && mk[1] != 'v' {
+		nilEq = "\tif a == nil || b == nil {\n\t\treturn a == nil && b == nil\n\t}\n"
+		nilCmp = "\tif a == nil {\n\t\tif b == nil {\n\t\t\treturn 0\n\t\t}\n\t\treturn -1\n\t}\n\tif b == nil {\n\t\treturn 1\n\t}\n"
+	} else if mk[1] != 'v' {
+		nilEq = "\tif b == nil {\n\t\treturn false\n\t}\n"
+		nilCmp = "\tif b == nil {\n\t\treturn 1\n\t}\n"
+	}
+	f := first
+	return fmt.Sprintf("func (%[1]s) Equal(%[2]s) bool {\n%[3]s%[4]s\treturn a.%[6]s == b.%[6]s\n}\n\n"+
+		"func (%[1]s) Compare(%[2]s) int {\n%[3]s%[5]s\tif a.%[6]s < b.%[6]s {\n\t\treturn -1\n\t}\n\tif a.%[6]s > b.%[6]s {\n\t\treturn 1\n\t}\n\treturn 0\n}\n\n"+
+		"func (a %[7]s) Hash() uint64 { return uint64(a.%[6]s) }",
+		recv, arg, pre, nilEq, nilCmp, f, name)
 }
 
 func exported(name string) bool { return name != "" && name[0] >= 'A' && name[0] <= 'Z' }
@@ -224,6 +277,9 @@ func (g *GoGen) Expr(t *Type, from string, inExt bool) string {
 			}
 		}
 		b.WriteString("}")
+		if t.Meth != "" {
+			b.WriteString("\n\n" + methodDecls(name, t.Fields[0].Name, t.Meth))
+		}
 		if isExt {
 			g.ext[name] = b.String()
 		} else {
